@@ -95,7 +95,7 @@ PROPERTIES = {
     units=[U('c13_streams', 'c13_encoded_streams.cpp', flavour='asan', libs=['-lpugixml'], quick=dict(cases=60000, shards=8, min_eval=100000), thorough=dict(cases=2000000, shards=16, min_eval=1000000))]),
  'C06': dict(
     level='exploration', exhaustive_claim=True,
-    rule='exhaustive 8/16-bit integers of every integer type and all format thresholds; generated values of 87 typed models (floats incl. NaN payloads/Inf/subnormals, strings/bin/arrays/maps at length thresholds, negative and sub-second chrono values, classes with base class and conditional member, maps with every key type); oracle = independent strict MessagePack decoder + independently derived tree + minimal-format rule + memory == stream bytes',
+    rule='exhaustive 8/16-bit integers of every integer type and all format thresholds; generated values of 90 typed models (floats incl. NaN payloads/Inf/subnormals, strings/bin/arrays/maps at length thresholds, negative and sub-second chrono values, classes with base class (first, in the middle, two bases) and conditional member, maps with every key type); oracle = independent strict MessagePack decoder + independently derived tree + minimal-format rule + memory == stream bytes',
     assumptions=TRUSTED + ['ref_msgpack.h (from the MessagePack specification; vectors cross-checked with msgpack-python 1.1.1), self-tested at start', 'ties between integer families of equal size are allowed', 'recorded finding KF-35 (timestamp 96 field order) is excused only for that field order and witnessed'],
     units=[U('c06_g%d' % g, 'c06_msgpack_write.cpp', flavour='asan', cflags=['-DMODEL_GROUP=%d' % g], libs=['-lpugixml'], quick=dict(cases=60000, shards=5, min_eval=50000), thorough=dict(cases=1500000, shards=5, min_eval=500000)) for g in (0, 1, 2)]),
  'C07': dict(
@@ -105,7 +105,7 @@ PROPERTIES = {
     units=[U('c07_g%d' % g, 'c07_msgpack_read.cpp', flavour='asan', cflags=['-DMODEL_GROUP=%d' % g], libs=['-lpugixml'], quick=dict(cases=60000 if g == 0 else 40000, shards=5, min_eval=50000), thorough=dict(cases=1500000, shards=5, min_eval=500000)) for g in (0, 1, 2)]),
  'C01': dict(
     level='exploration', exhaustive_claim=False,
-    rule='generated typed model values (87 types: fundamentals, 4 string widths, enum, classes with base class / external serialization, chrono, every std container / optional / smart pointer / tuple / pair, nested) x 4 archives x {root, object member} x {memory, stringstream, short-read stream} x 5 encodings x BOM x pretty-print/padding x CSV separators; oracle = round trip (deep equality, floats bitwise) + load-save-load fixed point',
+    rule='generated typed model values (90 types: fundamentals, 4 string widths, enum, classes with base class / external serialization, chrono, every std container / optional / smart pointer / tuple / pair, nested) x 4 archives x {root, object member} x {memory, stringstream, short-read stream} x 5 encodings x BOM x pretty-print/padding x CSV separators; oracle = round trip (deep equality, floats bitwise) + load-save-load fixed point',
     assumptions=TRUSTED + ['values restricted to what the format can carry: XML 1.0 characters and Names, CSV = flat rows (no null/empty distinction for strings), JSON floats finite', 'BOM-less streams: no U+0000 in the text (detection is undecidable otherwise)',
                  'recorded findings KF-12, KF-13, KF-14, KF-34, KF-44 are excluded by construction and witnessed on every run'],
     units=_c01_units('c01', 'roundtrip*', 3000, 60000) + [U('c01_kf', 'c01_kf.cpp', flavour='asan', libs=['-lpugixml'], quick=dict(cases=300, shards=1, min_eval=100), thorough=dict(cases=3000, shards=1, min_eval=100))]),
